@@ -7,6 +7,7 @@ def handle (line : String) : String :=
   match line.trimAscii.toString.splitOn " " with
   | ["parse", d] => parseLine (unhex d)
   | ["rewrite", d] => rewriteLine (unhex d)
+  | ["spec", d] => specLine (unhex d)
   | "scan" :: f :: _ :: entries => scanLine (unhex f) entries
   | "recreateio" :: c :: rs :: ws :: _ :: entries => recreateIoLine (unhex c) rs ws entries
   | "codec" :: ops => (match parseOps ops with | some o => codecLine o | none => "bad-request")
